@@ -215,7 +215,12 @@ func c18fill(r *c18rng, v reflect.Value, depth int) {
 		c18fill(r, p.Elem(), depth+1)
 		v.Set(p)
 	case reflect.Slice:
-		if r.next()%5 == 0 {
+		switch r.next() % 6 {
+		case 0:
+			return
+		case 1:
+			// allocated but empty (with spare capacity): not the same value as a nil slice
+			v.Set(reflect.MakeSlice(v.Type(), 0, 3))
 			return
 		}
 		n := int(r.next()%3) + 1
@@ -229,7 +234,11 @@ func c18fill(r *c18rng, v reflect.Value, depth int) {
 			c18fill(r, v.Index(i), depth+1)
 		}
 	case reflect.Map:
-		if r.next()%5 == 0 {
+		switch r.next() % 6 {
+		case 0:
+			return
+		case 1:
+			v.Set(reflect.MakeMap(v.Type()))
 			return
 		}
 		m := reflect.MakeMap(v.Type())
